@@ -14,7 +14,7 @@ import threading
 from common import REPO
 
 SRC = os.path.join(REPO, "src", "ovld")
-BLOCK_TIMEOUT = 0.05
+BLOCK_TIMEOUT = 0.1
 
 
 class Worker:
@@ -23,6 +23,7 @@ class Worker:
         self.go = threading.Event()
         self.at_point = threading.Event()
         self.done = False
+        self.running = False
         self.result = None
         self.steps = 0
         self.where = None
@@ -67,11 +68,18 @@ class Scheduler:
 
     def step(self, w):
         """let worker w execute up to its next scheduling point; False when it is blocked"""
+        if w.running:
+            # it was found blocked earlier and has been running in the background since
+            if not w.at_point.wait(BLOCK_TIMEOUT):
+                return False
+            w.running = False
+            return True
         w.at_point.clear()
         w.go.set()
         if not w.at_point.wait(BLOCK_TIMEOUT):
             # blocked (on a lock another thread holds): it stays runnable in the background; when the lock is
             # released it will run to its next point and park there
+            w.running = True
             return False
         return True
 
@@ -85,21 +93,22 @@ class Scheduler:
                     break
                 n += 1
             self.trace.append((tid, n, w.where))
-        # finish everything, round robin over the threads that are not blocked
-        guard = 0
+        # finish everything: run each unfinished thread as far as it goes; a thread that is blocked on a lock gets
+        # its turn again after the others have moved
+        idle = 0
         while not all(w.done for w in ws):
             progressed = False
             for w in ws:
                 if w.done:
                     continue
-                # a blocked worker may have parked meanwhile
-                if w.at_point.is_set() or self.step_nowait(w):
-                    while not w.done:
-                        if not self.step(w):
-                            break
-                        progressed = True
-            guard += 1
-            if not progressed and guard > 200:
+                if w.running and not w.at_point.wait(BLOCK_TIMEOUT):
+                    continue  # still blocked in the background
+                while not w.done:
+                    if not self.step(w):
+                        break
+                    progressed = True
+            idle = 0 if progressed else idle + 1
+            if idle > 100:
                 return False  # deadlock
         return True
 
